@@ -27,11 +27,12 @@ TECHNIQUE = 'abstract interpretation of decl.c:tagspec/addmember over all member
 TY = {'char': (1, 1), 'short': (2, 2), 'int': (4, 4), 'long': (8, 8), 'S12': (12, 4), 'A3': (3, 1), 'ldouble': (16, 16)}
 
 
-def layout(members, union=False):
+def layout(members, union=False, pack=False):
     """x86-64 SysV (gcc): members = [(type, width|None, named, alignas)] -> (size, align, [(bitpos, width)|None])"""
     pos = 0; align = 1; out = []; mx = 0
     for ty, w, named, al in members:
         S, A = TY[ty]
+        if pack: A = 1
         if al: A = max(A, al)
         if union:
             if w is None:
@@ -74,7 +75,7 @@ def mtype(w, ty):
     return w.t(ty)
 
 
-def run_layout(prog, seqs, kind):
+def run_layout(prog, seqs, kind, pack=False):
     """interpret tagspec for each sequence; returns {seq index: result}"""
     fn = prog.require_func('tagspec', 'decl.c')
     am = prog.require_func('addmember', 'decl.c')
@@ -101,7 +102,12 @@ def run_layout(prog, seqs, kind):
                 if st['m'] >= len(seq):
                     st['i'] = 3; load()      # closing brace
                 return None
-            it.models.update({'next': nxt, 'structdecl': structdecl, 'attr': lambda i2, a, e: 0, 'gnuattr': lambda i2, a, e: 0,
+            def gnuattr(i2, a, e):
+                if pack and a[0] is not None:
+                    if not (a[1] & ev(prog, 'ATTRPACKED')): raise Terminal('error', 'packed not allowed here')
+                    a[0].obj.f[a[0].path + ('kind',)] = ev(prog, 'ATTRPACKED'); return 1
+                return 0
+            it.models.update({'next': nxt, 'structdecl': structdecl, 'attr': lambda i2, a, e: 0, 'gnuattr': gnuattr,
                               'consume': lambda i2, a, e: 0, 'scopegettag': lambda i2, a, e: None, 'scopeputtag': lambda i2, a, e: None,
                               'xmalloc': lambda i2, a, e: Ptr(Obj('heap@%s' % e.get('line'), 'heap'), ()),
                               'error': lambda i2, a, e: (_ for _ in ()).throw(Terminal('error', cmodel.fmt_of(i2, a, 1))),
@@ -179,6 +185,44 @@ def rule_layout(chk, prog, tier):
             r.violation('layout:%s' % kind, 'decl.c:addmember', '%d member sequences are laid out differently from the psABI, e.g. %s' % (nbad[kind], first[kind]))
     r.samples.append('%d member sequences (alphabet of %d member forms), structs and unions' % (len(seqs), len(A4)))
     r.exhaustive = (tier == 'thorough')
+
+
+def rule_packed_alignas(chk, prog, tier):
+    r = chk.rule('C06.b2', 'packed structs place every member (scalars, arrays, nested structs) at the next byte with alignment 1 and no tail padding; _Alignas(n) on a member raises its alignment and the struct\'s', floor=700,
+                 oracle='gcc 12 __attribute__((packed)) / _Alignas member layout (reference validated by tools/validate_c06_ref.py)')
+    PLAIN = [a for a in ALPHA if a[1] is None]
+    words = []
+    for n in (1, 2, 3):
+        words += [tuple((t, w, nm, 0) for t, w, nm in s_) for s_ in itertools.product(PLAIN, repeat=n)]
+    alwords = []
+    for n in (1, 2):
+        for s_ in itertools.product(PLAIN, repeat=n):
+            for als in itertools.product((0, 8, 16, 32), repeat=n):
+                if not any(als): continue
+                if any(al and al < TY[t][1] for (t, _, _), al in zip(s_, als)): continue     # less strict than the type: a constraint violation
+                alwords.append(tuple((t, w, nm, al) for (t, w, nm), al in zip(s_, als)))
+    jobs = []
+    idx = list(enumerate(words))
+    for c in range(16):
+        if idx[c::16]: jobs.append(('pack', idx[c::16]))
+    idx2 = list(enumerate(alwords))
+    for c in range(16):
+        if idx2[c::16]: jobs.append(('al', idx2[c::16]))
+    def work(job):
+        mode, part = job
+        return mode, run_layout(prog, part, 'struct', pack=(mode == 'pack'))
+    for mode, res in par.pmap(work, jobs):
+        for si, (outcome, val) in res.items():
+            seq = (words if mode == 'pack' else alwords)[si]
+            size, align, want = layout(seq, False, pack=(mode == 'pack'))
+            key = 'layout-attr:%sstruct { %s }' % ('packed ' if mode == 'pack' else '', fmt(seq))
+            if outcome != 'return':
+                r.instance(False, key, 'decl.c:addmember', '%s %s' % (outcome, val)); continue
+            gsize, galign, mem = val
+            gm = [(bp, wd) for named, bp, wd in mem if named]
+            ok = (gsize, galign) == (size, align) and gm == [w_ for w_ in want if w_ is not None]
+            r.instance(ok, key, 'decl.c:addmember', 'sizeof %s _Alignof %s members %s; platform compiler: sizeof %d _Alignof %d members %s' % (gsize, galign, gm, size, align, want))
+    r.exhaustive = True
 
 
 def rule_align_pack(chk, prog, tier):
@@ -578,6 +622,7 @@ def run(chk, tier):
     prog = facts.programs()['cproc-qbe']
     chk.guard('C06.a', lambda: rule_layout(chk, prog, tier))
     chk.guard('C06.b', lambda: rule_align_pack(chk, prog, tier))
+    chk.guard('C06.b2', lambda: rule_packed_alignas(chk, prog, tier))
     chk.guard('C06.c', lambda: rule_enum(chk, prog, tier))
     chk.guard('C06.d', lambda: rule_offsetof(chk, prog, tier))
     chk.guard('C06.e', lambda: rule_arrays(chk, prog, tier))
